@@ -34,6 +34,9 @@ ASSUMPTIONS = [
 ]
 BUDGET = {"quick": (4, 120), "thorough": (16, 1500)}
 STEPS = 12
+# coverage-guided campaigns: (corpus mode, seed offset); libFuzzer runs per campaign
+FUZZ = {"quick": {"runs": 1500, "campaigns": [("empty", 0), ("seeded", 1)]},
+        "thorough": {"runs": 40000, "campaigns": [("empty", 0), ("empty", 1)] + [("seeded", 2 + i) for i in range(6)]}}
 ENGINE = "hypothesis"
 TECHNIQUE = ("stateful property-based testing (Hypothesis RuleBasedStateMachine over successive assignments in mixed formats, partial "
              "updates and rejected inputs) against a dict reference model observed through ode/grad")
@@ -198,119 +201,148 @@ class World:
                                       "values_by_name": dict(self.vals)})
 
 
-# ------------------------------------------------------------------------------------------------ machine
-def _point(data, m):
+# ------------------------------------------------------------------------------------------------ generation
+# Every operation is drawn by a pure function of (draw, model IR, accepted_before): the state machine passes data.draw,
+# the @given history strategy (used by the coverage-guided campaign) passes the composite's draw.
+def _point(draw, m):
     n_s = len(ir.state_names(m))
-    return [data.draw(S.fl(0.1, 20.0)) for _ in range(n_s)], data.draw(S.fl(0.0, 20.0))
+    return [draw(S.fl(0.1, 20.0)) for _ in range(n_s)], draw(S.fl(0.0, 20.0))
 
 
+def _vals(draw, names):
+    vtype = draw(st.sampled_from(["float", "float", "int", "np"]))
+    if vtype == "int":
+        return vtype, [draw(st.integers(1, 9)) for _ in names]
+    return vtype, [draw(S.fl(0.05, 5.0)) for _ in names]
+
+
+def gen_model(draw):
+    if draw(st.integers(0, 9)) < 6:
+        n = draw(st.sampled_from([1, 2, 3, 3, 4, 5]))
+        return probe_model(n, list(draw(st.permutations(list(range(n))))))
+    return draw(S.general_model(max_states=3, max_events=3, allow_range=False))
+
+
+def gen_assign_positional(draw, m):
+    names = list(m["params"])
+    form = draw(st.sampled_from(["list", "tuple", "array", "array_col"]))
+    vtype, vals = _vals(draw, names)
+    if form.startswith("array"):
+        vtype = "float"
+    x, t = _point(draw, m)
+    return {"op": "assign", "form": form, "names": names, "values": vals, "vtype": vtype, "x": x, "t": t}
+
+
+def gen_assign_named(draw, m):
+    names = list(draw(st.permutations(m["params"])))
+    form = draw(st.sampled_from(["pairs", "pairs", "pairs_tuple", "dict", "dict", "dict"]))
+    vtype, vals = _vals(draw, names)
+    op = {"op": "assign", "form": form, "names": names, "values": vals, "vtype": vtype}
+    if form == "dict":
+        op["keykinds"] = [draw(st.sampled_from(["str", "sym"])) for _ in names]
+    op["x"], op["t"] = _point(draw, m)
+    return op
+
+
+def gen_assign_partial(draw, m):
+    params = m["params"]
+    names = draw(st.lists(st.sampled_from(params), min_size=1, max_size=max(1, len(params) - 1), unique=True))
+    vtype, vals = _vals(draw, names)
+    op = {"op": "assign", "form": "partial", "names": names, "values": vals, "vtype": vtype,
+          "keykinds": [draw(st.sampled_from(["str", "sym"])) for _ in names]}
+    op["x"], op["t"] = _point(draw, m)
+    return op
+
+
+def gen_bad(draw, m):
+    params = m["params"]
+    n = len(params)
+    kind = draw(st.sampled_from(["unknown-name-dict", "unknown-name-pairs", "too-many-dict", "wrong-length-positional",
+                                 "wrong-length-pairs", "wrong-size-2d"]))
+    op = {"op": "bad", "kind": kind, "vtype": "float"}
+    unknown = draw(st.sampled_from(UNKNOWN_NAMES))
+    if kind == "unknown-name-dict":
+        k = draw(st.integers(0, n - 1))
+        names = list(draw(st.permutations(params)))[:k]
+        names.insert(draw(st.integers(0, len(names))), unknown)
+        op.update(form="dict", names=names, keykinds=[draw(st.sampled_from(["str", "sym"])) for _ in names])
+    elif kind == "unknown-name-pairs":
+        names = list(draw(st.permutations(params)))
+        names[draw(st.integers(0, n - 1))] = unknown
+        op.update(form="pairs", names=names)
+    elif kind == "too-many-dict":
+        names = list(draw(st.permutations(params)))
+        extra = draw(st.lists(st.sampled_from(UNKNOWN_NAMES), min_size=1, max_size=2, unique=True))
+        for e in extra:
+            names.insert(draw(st.integers(0, len(names))), e)
+        op.update(form="dict", names=names, keykinds=["str"] * len(names))
+    elif kind == "wrong-length-positional":
+        k = draw(st.sampled_from([0, max(n - 1, 0), n + 1, n + 2]).filter(lambda v: v != n))
+        op.update(form=draw(st.sampled_from(["list", "tuple", "array"])), names=["#%d" % i for i in range(k)])
+    elif kind == "wrong-length-pairs":
+        names = list(draw(st.permutations(params)))
+        if n >= 2 and draw(st.booleans()):
+            names = names[:-1]
+        else:
+            names = names + [draw(st.sampled_from(params))]
+        op.update(form="pairs", names=names)
+    else:
+        shape = draw(st.sampled_from([(n, 2), (n, 3), (2, n + 1), (n + 1, 1)]))
+        op.update(form="array_2d", shape=list(shape), names=["#%d" % i for i in range(shape[0] * shape[1])])
+    op["values"] = [draw(S.fl(0.05, 5.0)) for _ in op["names"]]
+    op["x"], op["t"] = _point(draw, m)
+    return op
+
+
+def history_strategy(tier, max_ops=10):
+    """A whole history as one value (for @given-style engines such as the coverage-guided campaign)."""
+    @st.composite
+    def hist(draw):
+        m = gen_model(draw)
+        ops = [{"op": "init", "model": m}]
+        for _ in range(draw(st.integers(1, max_ops))):
+            kind = draw(st.sampled_from(["positional", "named", "named", "partial", "partial", "bad"]))
+            # (a partial dict is accepted as the very first assignment as well)
+            gen = {"positional": gen_assign_positional, "named": gen_assign_named, "partial": gen_assign_partial, "bad": gen_bad}[kind]
+            ops.append(gen(draw, m))
+        return {"ops": ops}
+    return hist()
+
+
+def oracle(case, rec):
+    """Plain oracle over a whole history (used by --replay and by the coverage-guided campaign)."""
+    machines.replay_ops(World, case, rec)
+
+
+# ------------------------------------------------------------------------------------------------ machine
 def machine(tier, rec, ctl):
     class C09Machine(machines.Base):
         WORLD = World
 
         @initialize(data=st.data())
         def init(self, data):
-            if data.draw(st.integers(0, 9)) < 6:
-                n = data.draw(st.sampled_from([1, 2, 3, 3, 4, 5]))
-                m = probe_model(n, list(data.draw(st.permutations(list(range(n))))))
-            else:
-                m = data.draw(S.general_model(max_states=3, max_events=3, allow_range=False))
-            self.do({"op": "init", "model": m})
-
-        def _vals(self, data, names):
-            vtype = data.draw(st.sampled_from(["float", "float", "int", "np"]))
-            if vtype == "int":
-                return vtype, [data.draw(st.integers(1, 9)) for _ in names]
-            return vtype, [data.draw(S.fl(0.05, 5.0)) for _ in names]
+            self.do({"op": "init", "model": gen_model(data.draw)})
 
         @precondition(lambda self: self.alive() and self.world is not None)
         @rule(data=st.data())
         def assign_positional(self, data):
-            m = self.world.m
-            names = list(m["params"])
-            form = data.draw(st.sampled_from(["list", "tuple", "array", "array_col"]))
-            vtype, vals = self._vals(data, names)
-            if form.startswith("array"):
-                vtype = "float"
-            x, t = _point(data, m)
-            self.do({"op": "assign", "form": form, "names": names, "values": vals, "vtype": vtype, "x": x, "t": t})
+            self.do(gen_assign_positional(data.draw, self.world.m))
 
         @precondition(lambda self: self.alive() and self.world is not None)
         @rule(data=st.data())
         def assign_named(self, data):
-            m = self.world.m
-            names = list(data.draw(st.permutations(m["params"])))
-            form = data.draw(st.sampled_from(["pairs", "pairs", "pairs_tuple", "dict", "dict", "dict"]))
-            vtype, vals = self._vals(data, names)
-            op = {"op": "assign", "form": form, "names": names, "values": vals, "vtype": vtype}
-            if form == "dict":
-                op["keykinds"] = [data.draw(st.sampled_from(["str", "sym"])) for _ in names]
-            op["x"], op["t"] = _point(data, m)
-            self.do(op)
-
-        @precondition(lambda self: self.alive() and self.world is not None and hasattr(self.world.model, "_parameters"))
-        @rule(data=st.data())
-        def assign_partial(self, data):
-            m = self.world.m
-            params = m["params"]
-            names = data.draw(st.lists(st.sampled_from(params), min_size=1, max_size=max(1, len(params) - 1), unique=True))
-            vtype, vals = self._vals(data, names)
-            op = {"op": "assign", "form": "partial", "names": names, "values": vals, "vtype": vtype,
-                  "keykinds": [data.draw(st.sampled_from(["str", "sym"])) for _ in names]}
-            op["x"], op["t"] = _point(data, m)
-            self.do(op)
+            self.do(gen_assign_named(data.draw, self.world.m))
 
         @precondition(lambda self: self.alive() and self.world is not None)
         @rule(data=st.data())
-        def first_partial(self, data):
-            """A partial dict as the very first assignment is also accepted (the rest stays at its default)."""
-            if hasattr(self.world.model, "_parameters"):
-                return
-            self.assign_partial(data)
+        def assign_partial(self, data):
+            """Also as the very first assignment: a partial dict is accepted then too (the rest stays at its default)."""
+            self.do(gen_assign_partial(data.draw, self.world.m))
 
         @precondition(lambda self: self.alive() and self.world is not None)
         @rule(data=st.data())
         def bad_input(self, data):
-            m = self.world.m
-            params = m["params"]
-            n = len(params)
-            kind = data.draw(st.sampled_from(["unknown-name-dict", "unknown-name-pairs", "too-many-dict", "wrong-length-positional",
-                                              "wrong-length-pairs", "wrong-size-2d"]))
-            op = {"op": "bad", "kind": kind, "vtype": "float"}
-            unknown = data.draw(st.sampled_from(UNKNOWN_NAMES))
-            if kind == "unknown-name-dict":
-                k = data.draw(st.integers(0, n - 1))
-                names = list(data.draw(st.permutations(params)))[:k]
-                pos = data.draw(st.integers(0, len(names)))
-                names.insert(pos, unknown)
-                op.update(form="dict", names=names, keykinds=[data.draw(st.sampled_from(["str", "sym"])) for _ in names])
-            elif kind == "unknown-name-pairs":
-                names = list(data.draw(st.permutations(params)))
-                pos = data.draw(st.integers(0, n - 1))
-                names[pos] = unknown
-                op.update(form="pairs", names=names)
-            elif kind == "too-many-dict":
-                names = list(data.draw(st.permutations(params)))
-                extra = data.draw(st.lists(st.sampled_from(UNKNOWN_NAMES), min_size=1, max_size=2, unique=True))
-                for e in extra:
-                    names.insert(data.draw(st.integers(0, len(names))), e)
-                op.update(form="dict", names=names, keykinds=["str"] * len(names))
-            elif kind == "wrong-length-positional":
-                k = data.draw(st.sampled_from([0, max(n - 1, 0), n + 1, n + 2]).filter(lambda v: v != n))
-                op.update(form=data.draw(st.sampled_from(["list", "tuple", "array"])), names=["#%d" % i for i in range(k)])
-            elif kind == "wrong-length-pairs":
-                names = list(data.draw(st.permutations(params)))
-                if n >= 2 and data.draw(st.booleans()):
-                    names = names[:-1]
-                else:
-                    names = names + [data.draw(st.sampled_from(params))]
-                op.update(form="pairs", names=names)
-            else:
-                shape = data.draw(st.sampled_from([(n, 2), (n, 3), (2, n + 1), (n + 1, 1)]))
-                op.update(form="array_2d", shape=list(shape), names=["#%d" % i for i in range(shape[0] * shape[1])])
-            op["values"] = [data.draw(S.fl(0.05, 5.0)) for _ in op["names"]]
-            op["x"], op["t"] = _point(data, m)
-            self.do(op)
+            self.do(gen_bad(data.draw, self.world.m))
 
     C09Machine.rec = rec
     C09Machine.ctl = ctl
